@@ -1,7 +1,7 @@
 (* C17 — URI, query-string and cookie codecs round-trip.  Property theorems only. *)
 From Coq Require Import String.
 From Coq Require Import List Strings.Byte NArith Bool.
-Require Import Bytes Show Tables Codec CodecProofs.
+Require Import Bytes Show Tables Codec CodecProofs Range Cookie CookieProofs.
 Import ListNotations.
 
 (* Decoding a quoted argument gives the argument back, for every byte string. *)
@@ -27,3 +27,25 @@ Example C17_args_nonvacuous :
   = Some [ {| key := B "a b"; value := B "1&2=%"; noValue := false |};
            {| key := B "k"; value := B ""; noValue := true |} ].
 Proof. split; [repeat constructor; unfold wf; simpl; auto; discriminate | vm_compute; reflexivity]. Qed.
+
+(* Response cookies (Model/Cookie.v: Cookie.AppendBytes, cookieScanner.next, decodeCookieArg, Cookie.ParseBytes;
+   compared with the real Cookie on arbitrary Set-Cookie texts by unit c17.cookiemodel).
+   For EVERY cookie whose key is non-empty, has no ';' or '=' and no space at either end, whose value, domain,
+   path and Expires text have no ';', no space at either end and are not wrapped in double quotes, whose Max-Age
+   is below 2^63 (and, when positive, comes without Expires, which AppendBytes would not write), and whose
+   SameSite mode is one of the five: parsing the string form returns exactly that cookie - key, value, Max-Age,
+   Expires, Domain, Path, HttpOnly, Secure, SameSite and Partitioned. *)
+Theorem C17_cookie_roundtrip : forall c : cookie, wf_cookie c -> cookie_parse (cookie_bytes c) = Some c.
+Proof. exact cookie_roundtrip. Qed.
+Print Assumptions C17_cookie_roundtrip.
+
+(* ... and formatting the parsed cookie again is a fixed point *)
+Theorem C17_cookie_format_fixed_point : forall c : cookie, wf_cookie c ->
+  option_map cookie_bytes (cookie_parse (cookie_bytes c)) = Some (cookie_bytes c).
+Proof. intros c W. rewrite (cookie_roundtrip c W). reflexivity. Qed.
+
+Example C17_cookie_nonvacuous :
+  cookie_parse_script [B "sid=a b; Max-Age=60; path=/x; HTTPONLY; SameSite=lax; junk"] =
+  B "OK k=736964 v=612062 ma=60 ex= d= p=2f78 h=1 s=0 ss=2 pt=0 | " ++
+  hex_of (B "sid=a b; max-age=60; path=/x; HttpOnly; SameSite=Lax").
+Proof. vm_compute. reflexivity. Qed.
